@@ -300,7 +300,7 @@ theorem group_flush_step {c : Dag} {P : Paths} (g : Good c P) (hh : GroupHyp c) 
   obtain ⟨P2, g2, e2, hP2, hoth, hnodes, _⟩ := insertOn_refines g hwf hq hc hP
   have hfresh := g.inv.op_fresh
   have hplain : PlainOp' (wrapperOn r gates) :=
-    { labels := by intro l hl; simp [wrapperOn] at hl; exact Or.inl hl
+    { labels := by intro l hl; simp [wrapperOn] at hl; subst hl; decide
       arity := by simp [wrapperOn]
       inner_base := by intro k hk; exact (hall k hk).2 }
   refine ⟨e2, P2, g2, hh.of_append hnodes hplain ⟨⟨r, rfl⟩, rfl⟩, hP2, hoth, ?_, ?_⟩
